@@ -202,6 +202,7 @@ func histOracle(op M, res any, exec func(M) any) []Finding {
 		prev = append(prev, CanonResult(r))
 	}
 	producer := map[int]string{}
+	reported := false
 	for k, st := range asList(res) {
 		step := asList(op["prog"])[k].(M)
 		written := int(asInt(step["a"]))
@@ -211,7 +212,7 @@ func histOracle(op M, res any, exec func(M) any) []Finding {
 		}
 		cur := asList(st)
 		for ri := range cur {
-			if ri != written && ri < len(prev) && !Equal(prev[ri], cur[ri]) {
+			if !reported && ri != written && ri < len(prev) && !Equal(prev[ri], cur[ri]) {
 				props := []string{"C12", "C11"}
 				switch producer[ri] {
 				case "union":
@@ -222,7 +223,7 @@ func histOracle(op M, res any, exec func(M) any) []Finding {
 				for _, p := range props {
 					out = append(out, Finding{p, fmt.Sprintf("step %d (%v) changed register %d, which it neither returns nor edits in place (the register held %s)", k+1, step["i"], ri, map[bool]string{true: "the result of an earlier " + producer[ri], false: "an operand"}[producer[ri] != ""])})
 				}
-				return out
+				reported = true // the first such step is reported; well-formedness below is judged independently
 			}
 		}
 		producer[written] = asStr(step["i"])
